@@ -16,6 +16,7 @@ from nix_manipulator.expressions.layout import empty_line
 from nix_manipulator.expressions.scope import ScopeLayer, ScopeState
 from nix_manipulator.expressions.set import (
     _collect_attrpath_order,
+    _merge_attrpath_bindings,
     _reconcile_attrpath_order,
     _render_bindings,
 )
@@ -175,6 +176,9 @@ class LetExpression(TypedExpression):
                     ):
                         local_variables[-1].after.append(empty_line)
             attrpath_order = _collect_attrpath_order(local_variables)
+            # Like attribute sets: `a.b = 1; a.c = 2;` is one family, so that
+            # scoped edits (`@a.c`) find, extend and prune it as a whole.
+            local_variables = _merge_attrpath_bindings(local_variables)
 
         if not pre_value_comments:
             if gap_has_empty_line_from_offsets(
